@@ -338,14 +338,21 @@ func c19Decoded(r *Run, fn *ssa.Function, found map[string]*CondInfo, key, role 
 		}
 	}
 	okTests := len(ids) > 0 && r.Check(key+":logID-tests", len(eqID) == 1 && len(eqEmpty) == 1, r.FnPos(fn),
-		fmt.Sprintf("STH log ID compared with the requested ID (%d) and with the zero ID (%d)", len(eqID), len(eqEmpty)))
-	var idOpts []Sigma // the accepting outcomes of the log-ID decision
-	if okTests {
+		fmt.Sprintf("the log ID of the STH decoded from %s is compared with the requested ID (%d test(s)) and with the zero ID (%d test(s)); one of each is needed to refuse a tree head of another log and to fill in an absent ID", t.Bytes, len(eqID), len(eqEmpty)))
+	if idCall == nil && len(ids) == 1 {
+		idCall = ids[0]
+	}
+	if idCall != nil {
 		r.ExpectArg(idCall, key+":logID-decode.input", 1, logID)
 		errAtom(idCall, key+":logID-decode.error", "the log-ID decoding", "log-id-undecodable")
+	}
+	var idOpts []Sigma // the accepting outcomes of the log-ID decision
+	if okTests {
 		em, id := eqEmpty[0], eqID[0]
 		fill := r.StoresTo(fn, "&("+r.D.allocName(sth)+".LogID)")
-		r.ClassTable(fn, key+":logID", nil, []RuleAtom{{Name: "empty", Pat: em.Key}, {Name: "same", Pat: id.Key}},
+		// (walks start at the decoding: what ran before it — another tree head's branch — says
+		// nothing about this one)
+		r.ClassTable(fn, key+":logID", um.Block(), []RuleAtom{{Name: "empty", Pat: em.Key}, {Name: "same", Pat: id.Key}},
 			[]string{"absent", "same", "different"},
 			func(v map[string]string) string {
 				switch {
@@ -584,7 +591,15 @@ func c19Update(r *Run, fn *ssa.Function) {
 		}
 		return base + ":" + why
 	}
-	refused := map[string]string{} // class → what the candidate / stored STH failed
+	refused := map[string]string{ // class → why the update is refused
+		"unknown-log":          "no verifier is configured for the requested log ID",
+		"no-transaction":       "no transaction could be opened",
+		"read-failed":          "reading the stored row failed, so nothing is known about the held tree head",
+		"smaller":              "the candidate is smaller than the held tree head",
+		"same-size-other-root": "same size as the held tree head but another root",
+		"identical":            "it is the held tree head again: nothing to store",
+		"proof-rejected":       "the consistency proof from the held tree head does not verify",
+	}
 	classify := func(v map[string]string) string {
 		read := readState(v)
 		switch {
@@ -655,7 +670,7 @@ func c19Update(r *Run, fn *ssa.Function) {
 			why = " (" + w + ")"
 		}
 		if wrote {
-			return "setSTH may execute although the update must be refused" + why + ": the witness stores, and then cosigns, a tree head it has not verified", true
+			return "setSTH may execute although the update must be refused" + why + ": the witness stores, and then cosigns, a tree head it must not accept", true
 		}
 		if len(reachableIns(signs, reach)) > 0 {
 			return "signSTH may execute although the update must be refused" + why, true
